@@ -58,7 +58,7 @@ func checkLeak(c packcase.Case) error {
 		}
 		return false
 	}
-	var outPaths []string
+	var outPaths, climbPaths []string
 	mustFail := ""
 	hasOut, hasSibling, hasDirLink, hasChain, hasClimb, allRelative := false, false, false, false, false, true
 	for _, l := range links {
@@ -67,6 +67,8 @@ func checkLeak(c packcase.Case) error {
 		}
 		if l.Climbs && !l.Outside {
 			hasClimb = true
+			// dereferenced like an out-of-tree link: what it leads to may hold out-of-tree links of its own
+			climbPaths = append(climbPaths, l.Path)
 			// in the tree on disk, but not when read at its position in the archive:
 			// it cannot be stored as a link, so without dereferencing Pack has to refuse it
 			if !l.Allowed && !c.Opts.Deref && !maybeUnvisited(l.Path) && !ev.IsKnown("c05-link-reenters-root-by-name") {
@@ -117,6 +119,7 @@ func checkLeak(c packcase.Case) error {
 		return nil
 	}
 	ev.Label("pack-ok")
+	ev.LabelIf(c.Plant != 0, "planted-link-inside-dereferenced-directory")
 	if mustFail != "" {
 		return fmt.Errorf("link %q leaves the tree, is not allow-listed and dereferencing is off, but Pack succeeded", mustFail)
 	}
@@ -134,7 +137,7 @@ func checkLeak(c packcase.Case) error {
 			if !c.Opts.Deref {
 				return fmt.Errorf("entry %q carries content from outside the source directory (%q) although dereferencing is off", e.Name, e.Body)
 			}
-			if !underAny(name, outPaths) {
+			if !underAny(name, outPaths) && !underAny(name, climbPaths) {
 				return fmt.Errorf("entry %q carries outside content (%q) but is not at or below an out-of-tree link (%v)", e.Name, e.Body, outPaths)
 			}
 		}
